@@ -13,7 +13,8 @@
     select_eq_xp_chain_attribute select_eq_xp_chain_attribute_default
     pattern_matches_eq_xp
     parser_accepts_subset_partial parser_accepts_steps_partial
-    parse_print_tokens
+    parse_print_tokens tokenize_print parse_print parser_accepts_subset select_text_eq_xp
+    select_text_eq_xp_nonpositional
 -/
 import Genshi.Model.Path
 import Genshi.Model.PathParse
@@ -27,6 +28,7 @@ import Genshi.Lemmas.PathChain
 import Genshi.Lemmas.PathParseChain
 import Genshi.Lemmas.PathParseSteps
 import Genshi.Lemmas.PathPrintPath
+import Genshi.Lemmas.PathPrintTok
 import Genshi.Lemmas.PathChildPath
 import Genshi.Lemmas.PathUnion
 import Genshi.Lemmas.PathNonPos
@@ -260,7 +262,7 @@ example : parse "a[@n<=2 and not(@m)]/b//text()[2]|.//@x:y".toList = .ok
     numeral denotes its number — `Print.numOk`, see `numOk_examples`; no `matches` with three
     arguments, no node-type test or `.` inside a predicate: the real parser has no spelling for
     those either).  `select_eq_xp_*` therefore speak about what `Path(text)` does for the text
-    `Print.printPaths p` as soon as `tokenize (printPaths p) = pathsToks p` (`print_tokenize`). -/
+    `Print.printPaths p` as soon as `tokenize (printPaths p) = pathsToks p` (`tokenize_print`, `parse_print`, `select_text_eq_xp` below). -/
 theorem parse_print_tokens (ps : List LocPath) (h : Print.pathsOk ps = true) :
     parseTokens (Print.pathsToks ps) = .ok ps :=
   Print.parseTokens_print ps h
@@ -1179,5 +1181,52 @@ theorem ne_absent_not_xpath :
     select pathNeAbsent [] [] docAbsent.flatten
       = [.ev (.start ⟨[], ['a']⟩ []), .ev (.end_ ⟨[], ['a']⟩)] ∧
     Ref.xpSelect pathNeAbsent [] [] docAbsent = [] := by decide +kernel
+
+/-- **The tokenizer on printed text.**  The alternation `"…"|'…'|(\d+)?\.\d+|_TOKENS|[^heads\s]+|\s+` of
+    `PathParser._tokenize` (with the regenerated `_TOKENS` table) cuts the text `Print.printPaths ps` —
+    the printer's tokens separated by one blank — into exactly the printer's tokens. -/
+theorem tokenize_print (ps : List LocPath) (h : Print.pathsOk ps = true) :
+    tokenize (Print.printPaths ps) = Print.pathsToks ps :=
+  Print.tokenize_print ps h
+
+/-- **`parse (print p) = p`: on SOURCE TEXT.**  For every union of location paths in the printer's
+    domain (see `parse_print_tokens`), `PathParser(Print.printPaths ps).parse()` — tokenizer and
+    recursive-descent parser — returns exactly `ps`. -/
+theorem parse_print (ps : List LocPath) (h : Print.pathsOk ps = true) :
+    parse (Print.printPaths ps) = .ok ps :=
+  Print.parse_print ps h
+
+/-- **parser_accepts_subset.**  Every path expression of the subset has a source text that genshi's
+    parser accepts with exactly that meaning: no printable AST is rejected or read differently. -/
+theorem parser_accepts_subset (ps : List LocPath) (h : Print.pathsOk ps = true) :
+    ∃ text, parse text = .ok ps :=
+  ⟨Print.printPaths ps, parse_print ps h⟩
+
+example : parse (Print.printPaths printDemo) = .ok printDemo := parse_print _ (by decide +kernel)
+
+/-- `Path(text).select(stream, namespaces, variables)` in the model: parse, then select -/
+def selectText (text : Str) (ns : NsMap) (vs : Vars) (es : List Event) : Except PErr (List Item) :=
+  match parse text with
+  | .ok ps => .ok (select ps ns vs es)
+  | .error k => .error k
+
+/-- **`select_eq_xp` speaks about source text.**  Whenever one of the `select_eq_xp_*` theorems gives
+    `select ps … = Ref.xpSelect ps …` for an AST in the printer's domain, then selecting with the
+    *text* `Print.printPaths ps` returns what XPath 1.0 designates for `ps`. -/
+theorem select_text_eq_xp (ps : List LocPath) (hok : Print.pathsOk ps = true) (ns : NsMap) (vs : Vars) (root : Node)
+    (h : select ps ns vs root.flatten = Ref.xpSelect ps ns (toXVars vs) root) :
+    selectText (Print.printPaths ps) ns vs root.flatten = .ok (Ref.xpSelect ps ns (toXVars vs) root) := by
+  simp only [selectText, parse_print ps hok, h]
+
+/-- instance: every path without position tests over child / descendant / descendant-or-self / self
+    steps that `Path.__init__` hands to GenericStrategy, written as text -/
+theorem select_text_eq_xp_nonpositional (p : LocPath) (hok : Print.pathsOk [p] = true) (ns : NsMap) (vs : Vars)
+    (hp : StepsOk ns vs p) (h2 : 2 ≤ p.length) (hs : simpleSupports p = false)
+    (tag : QName) (attrs : AttrList) (kids : List Node)
+    (hcl : (Node.elem tag attrs kids).clean = true)
+    (hnodes : AllNodes (NodeFor p ns vs) (.elem tag attrs kids)) :
+    selectText (Print.printPaths [p]) ns vs (Node.elem tag attrs kids).flatten
+      = .ok (Ref.xpSelect [p] ns (toXVars vs) (.elem tag attrs kids)) :=
+  select_text_eq_xp [p] hok ns vs _ (select_eq_xp_nonpositional_default p ns vs hp h2 hs tag attrs kids hcl hnodes)
 
 end Genshi.Props.C05
